@@ -294,7 +294,13 @@ fn handover(name: String, params: Value) -> Scenario {
         let rest = bytes.len() - c;
         let ks: Vec<usize> = (0..=rest).filter(|k| *k <= 12 || *k + 4 >= rest || *k % 97 == 0).collect();
         let k = ks[chz.choose(ks.len())];
-        let spec = ConnectSpec::default();
+        // (the client may announce limits of its own - large ones: whatever it prepares for them when
+        // the CONNACK is accepted must not disturb what has been read behind the CONNACK)
+        let spec = if chz.choose(2) == 1 {
+            ConnectSpec { maximum_packet_size: Some(100_000), receive_maximum: Some(100), ..Default::default() }
+        } else {
+            ConnectSpec::default()
+        };
         sys.events.push(format!("Connect; CONNACK + {} of {} following bytes in the same read", k, rest));
         sys.classes.push("Connect".into());
         sys.m.connect(spec.clone());
